@@ -332,6 +332,8 @@ func runC05(c *report.Ctx) {
 	}
 
 	ruleMasterKeyWipeAfterSuccess(c, G)
+	ruleCreationPatternOnlyForNewPassphrases(c)
+	rulePassphraseVerdictReturned(c, G)
 	rulePassphraseHashedWhole(c)
 
 	// ---- (4) premature wipes ------------------------------------------------------------------------------------------
